@@ -477,24 +477,42 @@ func (r *remote) stop() {
 var golFrame = regexp.MustCompile(`^github\.com/arnodel/golua/([A-Za-z0-9_/]+)\.(\(\*?[A-Za-z0-9_]+\)\.)?([A-Za-z0-9_]+)`)
 
 // crashSignature reduces a Go crash dump to "<reason> @ <first golua frame that
-// is not part of the accounting/recover plumbing>".
+// is not part of the accounting plumbing>[<-Thread.end]"; numbers and
+// addresses are masked.
 func crashSignature(stderr string) string {
 	reason := ""
 	site := ""
+	inEnd := false
+	sawPanicCall := false
 	skip := map[string]bool{"ReleaseMem": true, "ReleaseArrSize": true, "ReleaseBytes": true, "ReleaseSize": true,
-		"RequireMem": true, "requireMem": true, "RequireBytes": true, "RequireArrSize": true, "RequireSize": true}
-	for _, ln := range strings.Split(stderr, "\n") {
-		if reason == "" && (strings.HasPrefix(ln, "panic:") || strings.HasPrefix(ln, "fatal error:") || strings.HasPrefix(ln, "runtime: goroutine stack exceeds")) {
-			reason = strings.TrimSuffix(firstLine(ln), " [recovered]")
+		"RequireMem": true, "requireMem": true, "RequireBytes": true, "RequireArrSize": true, "RequireSize": true,
+		"TerminateContext": true, "KillContext": true, "requireCPU": true, "RequireCPU": true, "LinearRequire": true}
+	lines := strings.Split(stderr, "\n")
+	for i, ln := range lines {
+		t := strings.TrimSpace(ln)
+		if strings.HasPrefix(t, "panic:") || strings.HasPrefix(t, "fatal error:") || strings.HasPrefix(t, "runtime: goroutine stack exceeds") {
+			if i == 0 || reason == "" || strings.HasPrefix(lines[i-1], "panic:") || strings.HasPrefix(strings.TrimSpace(lines[i-1]), "panic:") {
+				// the last line of the initial panic chain is the one that killed the process
+				reason = strings.TrimSuffix(firstLine(t), " [recovered]")
+			}
 			continue
 		}
-		if reason != "" && site == "" {
+		if reason == "" {
+			continue
+		}
+		if strings.HasPrefix(ln, "panic(") {
+			sawPanicCall = true
+		}
+		if strings.HasPrefix(ln, "goroutine ") && site != "" {
+			break
+		}
+		if !sawPanicCall && strings.Contains(ln, "runtime.(*Thread).end(") {
+			inEnd = true
+		}
+		if site == "" {
 			if mm := golFrame.FindStringSubmatch(ln); mm != nil {
 				fn := mm[3]
-				if skip[fn] || strings.HasPrefix(fn, "func") && strings.Contains(ln, "Start.func") {
-					continue
-				}
-				if strings.Contains(ln, ".Start.func") {
+				if skip[fn] || strings.Contains(ln, ".Start.func") {
 					continue
 				}
 				site = mm[2] + fn
@@ -504,11 +522,19 @@ func crashSignature(stderr string) string {
 	if reason == "" {
 		reason = "unknown"
 	}
+	reason = maskNumbers(reason)
 	if site != "" {
+		if inEnd {
+			site = "(*Thread).end"
+		}
 		return reason + " @ " + site
 	}
 	return reason
 }
+
+var numRe = regexp.MustCompile(`0x[0-9a-fA-F]+|[0-9]+`)
+
+func maskNumbers(s string) string { return numRe.ReplaceAllString(s, "N") }
 
 // run executes j in the child; a dead child is reported as Status "died".
 // The caller must start a new remote after "died"/"timeout".
